@@ -343,6 +343,145 @@ void c08(Tape& t, Ctx& ctx) {
   }
 }
 
+
+// ===================================================================================== C19
+template <class Opt, class TM>
+void c19_run(Tape& t, Ctx& ctx, Opt& opt, const TM& tm, const Problem& p, const char* mapname) {
+  const int N = p.N();
+  unsigned flagbits = (unsigned)t.range(0, 255);
+  double rho = t.flag() ? 0.0 : std::exp2(t.sym(3));
+  static const int Ks[] = {1, 2, 3, 4, 8, 16};
+  int K = Ks[t.range(0, 5)];
+  double sig = std::exp((std::log(*std::min_element(p.T.begin(), p.T.end())) + std::log(*std::max_element(p.T.begin(), p.T.end()))) / 2);
+  Costs costs = gen_costs(t, sig);
+  double rho_eff = rho * std::pow(sig, 2 * S - 1) / 64.0;
+  configure(opt, p, flagbits, rho_eff, K);
+  Eigen::VectorXd x = gen_x(t, opt, tm, N);
+  const int n = (int)x.size();
+  static const double epss[] = {1e-6, 1e-5, 1e-4};
+  int ei = t.pickw({3, 1, 1});
+  double eps = epss[ei];
+  bool two_cost = t.flag();
+  bool own_ws = t.flag();
+  if (two_cost) costs.wc = WaypointCostP<D>();  // the two-cost overload has no waypoint cost
+  std::string who = std::string(oname()) + " dim=" + std::to_string(D) + " N=" + std::to_string(N) + " K=" + std::to_string(K) + " maps=" + mapname + " flags=" + flags_str(flagbits) + " eps=" + g6(eps) + (two_cost ? " two-cost overload" : " three-cost overload") + (own_ws ? " own workspace" : " built-in workspace");
+  ctx.label(std::string("maps:") + mapname); ctx.label(two_cost ? "overload:two-cost" : "overload:three-cost"); ctx.label(own_ws ? "workspace:own" : "workspace:built-in");
+  ctx.label("eps=" + g6(eps));
+  if (ctx.want_desc) ctx.desc << "\"order\": \"" << oname() << "\", \"dim\": " << D << ", \"N\": " << N << ", \"K\": " << K << ", \"maps\": \"" << mapname << "\", \"flags\": \"" << flags_str(flagbits) << "\", \"eps\": " << g6(eps) << ", \"two_cost\": " << (two_cost ? "true" : "false") << ", \"own_ws\": " << (own_ws ? "true" : "false");
+  // ---- the documented procedure, re-enacted through plain evaluate calls on a separate workspace
+  typename Opt::Workspace wm;
+  Eigen::VectorXd g;
+  auto eval = [&](const Costs& c, const Eigen::VectorXd& y, Eigen::VectorXd& gg, typename Opt::Workspace* w) {
+    return two_cost ? opt.evaluate(y, gg, c.tc, c.rc, w) : opt.evaluate(y, gg, c.tc, c.wc, c.rc, w);
+  };
+  double c0 = eval(costs, x, g, &wm);
+  (void)c0;
+  Eigen::VectorXd num(n), dummy;
+  double cmax = std::fabs(c0);
+  for (int i = 0; i < n; ++i) {
+    Eigen::VectorXd y = x;
+    y(i) = x(i) + eps; double cp = eval(costs, y, dummy, &wm);
+    y(i) = x(i) - eps; double cm = eval(costs, y, dummy, &wm);
+    num(i) = (cp - cm) / (2 * eps);
+    cmax = std::max(cmax, std::max(std::fabs(cp), std::fabs(cm)));
+  }
+  double nu = (g - num).norm();
+  // state a plain evaluation leaves behind (fresh workspace)
+  typename Opt::Workspace wfresh;
+  Eigen::VectorXd gfresh;
+  eval(costs, x, gfresh, &wfresh);
+  auto run_helper = [&](const Costs& c, double tol, typename Opt::Workspace* w) {
+    return two_cost ? opt.checkGradients(x, c.tc, c.rc, w, eps, tol) : opt.checkGradients(x, c.tc, c.wc, c.rc, w, eps, tol);
+  };
+  // ---- tolerance relative to the measured resolution of the helper's own differences
+  int tc = t.range(0, 2);
+  double tol = tc == 0 ? std::max(1e-4, 20 * nu) : (tc == 1 ? 200 * nu : 2000 * nu);
+  if (!(tol > 0)) tol = 1e-4;
+  bool default_tol = (tol == 1e-4);
+  ctx.label(default_tol ? "tol:default-1e-4" : (tc == 0 ? "tol:20nu" : (tc == 1 ? "tol:200nu" : "tol:2000nu")));
+  typename Opt::Workspace wown;
+  typename Opt::Workspace* wp = own_ws ? &wown : nullptr;
+  // the default-argument forms (eps = 1e-6, tol = 1e-4) are used when that is exactly what this case models
+  bool use_default_form = default_tol && eps == 1e-6 && t.flag();
+  if (use_default_form) ctx.label("call:default-arguments");
+  auto res = use_default_form ? (two_cost ? (own_ws ? opt.checkGradients(x, costs.tc, costs.rc, wp) : opt.checkGradients(x, costs.tc, costs.rc))
+                                          : (own_ws ? opt.checkGradients(x, costs.tc, costs.wc, costs.rc, wp) : opt.checkGradients(x, costs.tc, costs.wc, costs.rc)))
+                              : run_helper(costs, tol, wp);
+  const bool numerics_comparable = true;
+  // part 1: procedure
+  VCHECK(ctx, res.analytical.size() == n && res.numerical.size() == n, "result-shape", who << ": result vectors have sizes " << res.analytical.size() << "/" << res.numerical.size() << " for " << n << " variables");
+  VCHECK(ctx, vec_same_bits(res.analytical, g), "analytical-not-gradient", who << ": the 'analytical' vector differs from the gradient written by a direct evaluate at the checked vector");
+  if (numerics_comparable) {
+    for (int i = 0; i < n; ++i) {
+      double allow = 1e-9 * std::fabs(num(i)) + 64 * DBL_EPSILON * cmax / eps + 1e-280;
+      VCHECK(ctx, std::fabs(res.numerical(i) - num(i)) <= allow, "numerical-not-central-difference",
+             who << ": numerical[" << i << "] = " << g17(res.numerical(i)) << " but the central difference (c(x+eps e_i) - c(x-eps e_i))/(2 eps) of the optimizer's own cost is " << g17(num(i)));
+    }
+  }
+  {
+    double en = (res.analytical - res.numerical).norm();
+    VCHECK(ctx, std::fabs(res.error_norm - en) <= 1e-12 * (en + 1e-300) + 1e-300, "error-norm", who << ": error_norm " << g17(res.error_norm) << " is not |analytical - numerical| = " << g17(en));
+    double gn = res.analytical.norm();
+    double rel = gn > 1e-9 ? en / gn : en;
+    VCHECK(ctx, std::fabs(res.rel_error - rel) <= 1e-9 * (rel + 1e-300) + 1e-300, "rel-error", who << ": rel_error " << g17(res.rel_error) << " inconsistent with the returned vectors (" << g17(rel) << ")");
+    VCHECK(ctx, !res.makeReport().empty(), "report", who << ": empty report");
+  }
+  {
+    const Spline& after = own_ws ? wown.spline : *opt.getOptimalSpline();
+    VCHECK(ctx, mat_same_bits(after.getTrajectory().getCoefficients(), wfresh.spline.getTrajectory().getCoefficients()) && after.getTimeSegments() == wfresh.spline.getTimeSegments() &&
+                    mat_same_bits(after.getSpacePoints(), wfresh.spline.getSpacePoints()),
+           "state-not-restored", who << ": after the self-check the workspace's spline is not the one defined by the checked decision vector: " << first_diff(after.getTrajectory().getCoefficients(), wfresh.spline.getTrajectory().getCoefficients()));
+  }
+  // part 2: verdict for correct functors
+  VCHECK(ctx, res.valid, "correct-functors-rejected", who << ": correct cost functors are reported FAILED (error_norm " << g17(res.error_norm) << ", tolerance " << g17(tol) << ", measured resolution of the differences " << g17(nu) << ")");
+  ctx.nontrivial = (flagbits & 0xEE) != 0;
+  // ---- a functor with ONE wrong gradient component
+  {
+    Costs bad = costs;
+    int which = t.range(0, 2);
+    const char* what = "";
+    if (which == 1 && two_cost) which = 2;
+    if (which == 0) { bad.tc.bad_component = t.range(0, N - 1); bad.tc.bad_delta = 1.0; what = "time cost"; }
+    else if (which == 1) { bad.wc.bad_row = t.range(0, N); bad.wc.bad_col = t.range(0, D - 1); bad.wc.bad_delta = 1.0; what = "waypoint cost"; }
+    else { bad.rc.bad_which = t.range(0, 5); bad.rc.bad_dim = t.range(0, D - 1); bad.rc.bad_delta = 1.0; what = "running cost"; }
+    Eigen::VectorXd g1;
+    typename Opt::Workspace wq;
+    eval(bad, x, g1, &wq);
+    double delta1 = (g1 - g).norm();   // effect of a unit error in that component on the checked gradient
+    if (delta1 > 0) {
+      double target = (t.flag() ? 30.0 : 1000.0) * tol;
+      double dlt = target / delta1;
+      if (which == 0) bad.tc.bad_delta = dlt; else if (which == 1) bad.wc.bad_delta = dlt; else bad.rc.bad_delta = dlt;
+      Eigen::VectorXd g2; eval(bad, x, g2, &wq);
+      double Delta = (g2 - g).norm();
+      if (Delta >= 10 * tol) {
+        typename Opt::Workspace wb;
+        auto rb = run_helper(bad, tol, own_ws ? &wb : nullptr);
+        VCHECK(ctx, !rb.valid, "wrong-gradient-accepted",
+               who << ": a " << what << " whose supplied gradient is wrong in one component (effect on the checked gradient " << g17(Delta) << " >= 10 x tolerance " << g17(tol) << ") is reported PASSED (error_norm " << g17(rb.error_norm) << ")");
+        ctx.label(std::string("perturbed:") + what);
+        ctx.nontrivial = true;
+      } else ctx.label("perturbed:borderline-not-judged");
+    } else ctx.label("perturbed:invisible-component(not judged)");
+  }
+}
+
+void c19(Tape& t, Ctx& ctx) {
+  int mp = t.range(0, 1);
+  int N = t.pickw({2, 2, 3, 2, 1}) + 1;
+  double tsc;
+  Problem p = gen_problem(t, N, &tsc);
+  if (mp == 0) { OptD opt; QuadInvTimeMap tm; VCHECK(ctx, opt.setInitState(p.T, p.P, p.t0, p.bc), "init-rejected", "valid problem rejected"); c19_run(t, ctx, opt, tm, p, "QuadInv+Identity"); }
+  else {
+    UserTimeMap tm(t.range(0, 2), (2 + t.range(0, 6)) / 4.0);
+    UserSpatialMap<D> sm(1 + t.range(0, 1000), 1 + t.range(0, 30));
+    OptU opt; opt.setTimeMap(&tm); opt.setSpatialMap(&sm);
+    for (int i = 0; i <= N; ++i) { Eigen::VectorXd v = p.P.row(i).transpose(); Eigen::VectorXd w = sm.project(v, i); for (int d = 0; d < D; ++d) p.P(i, d) = w(d); }
+    VCHECK(ctx, opt.setInitState(p.T, p.P, p.t0, p.bc), "init-rejected", "valid problem rejected");
+    c19_run(t, ctx, opt, tm, p, "UserTime+UserSpatial");
+  }
+}
+
 bool selftest(std::string& msg) {
   // every cost functor family: hand-derived gradients against central differences
   std::vector<uint32_t> words(64);
@@ -422,6 +561,7 @@ bool selftest(std::string& msg) {
 }
 
 Registrar r07({"C07", std::string("gradient vs finite differences ") + SplineOf<VDIM, (VORDER + 1) / 2>::name() + " dim=" + std::to_string(VDIM), 500, c07_total(), c07, selftest});
+Registrar r19({"C19", std::string("checkGradients ") + SplineOf<VDIM, (VORDER + 1) / 2>::name() + " dim=" + std::to_string(VDIM), 500, 0, c19, nullptr});
 Registrar r08({"C08", std::string("cost decomposition ") + SplineOf<VDIM, (VORDER + 1) / 2>::name() + " dim=" + std::to_string(VDIM), 500, 0, c08, nullptr});
 
 }  // namespace oc
